@@ -187,7 +187,10 @@ def render_upstream(v):
                         entries.append((f"{comp}/i18n/Translation-en{EXT[k]}", compress(data, k)))
             if cc["contents"]:
                 for a in [a for a in cc["arches"] if a != "all" and a in cc.get("contents_arches", list(cc["arches"]))]:
-                    body = f"usr/bin/x {comp}\n" if cc.get("contents_identical") else f"usr/bin/x {comp}/{a}\n"
+                    # identical: every architecture carries the body the FIRST architecture has anyway, so that an index can
+                    # become byte-identical to a sibling that did not change (and is already mirrored)
+                    first_arch = next(x for x in cc["arches"] if x != "all")
+                    body = f"usr/bin/x {comp}/{first_arch}\n" if cc.get("contents_identical") else f"usr/bin/x {comp}/{a}\n"
                     entries.append((f"{comp}/Contents-{a}.gz", compress(body.encode(), "gz")))
         lines = [f"Origin: sim", f"Suite: {cn}", f"Codename: {cn}", f"Version: {v['serial']}",
                  "Date: " + time.strftime("%a, %d %b %Y %H:%M:%S UTC", time.gmtime(date))]
@@ -290,7 +293,8 @@ VTIME_CAP = 3e5
 
 
 def run_tool(scn: Scenario, base: Path, faults=None, on_event=None, trace=False, gate=None, upstream_files=None,
-             hashseed=None, prepare=None, on_request=None, on_write=None, chunk_size=64, on_downloader=None):
+             hashseed=None, prepare=None, on_request=None, on_write=None, chunk_size=64, on_downloader=None,
+             real_writer=False, init_logs=False):
     """Runs APTMirror.run() in this process.  faults: {url: {path: {"first": [Resp...], "rest": Resp}}}.
     upstream_files: {url: files} overrides rendering (for history steps).  Returns RunResult."""
     import apt_mirror.apt_mirror as am
@@ -335,7 +339,15 @@ def run_tool(scn: Scenario, base: Path, faults=None, on_event=None, trace=False,
     orig_aio = am.AsyncIOFileFactory
     orig_mirror = am.RepositoryMirror.mirror
     am.DownloaderFactory.for_settings = staticmethod(for_settings)
-    am.AsyncIOFileFactory = sim.make_sync_writer_factory(on_write)
+    if not sim.sim_writer_usable():
+        real_writer = True          # the simulated writer no longer fits the tool's writer interface
+    if real_writer and sim.REAL_WRITER["left"] >= len(scn.repos):
+        sim.REAL_WRITER["left"] -= len(scn.repos)      # one factory (one AIO context) per repository
+        sim.REAL_WRITER["used"] += len(scn.repos)
+    elif real_writer and sim.sim_writer_usable():
+        real_writer = False
+    if not real_writer:
+        am.AsyncIOFileFactory = sim.make_sync_writer_factory(on_write)
 
     async def mirror(self):
         r = await orig_mirror(self)
@@ -349,6 +361,8 @@ def run_tool(scn: Scenario, base: Path, faults=None, on_event=None, trace=False,
     try:
         config = Config(cfgfile, str(base))
         config.create_working_directories()
+        if init_logs:
+            config.init_log_files()      # as main() does: var/apt-mirror2.log and one log file per repository
 
         async def go():
             apt = am.APTMirror(config)
@@ -384,6 +398,21 @@ def run_tool(scn: Scenario, base: Path, faults=None, on_event=None, trace=False,
         am.DownloaderFactory.for_settings = orig_factory
         am.AsyncIOFileFactory = orig_aio
         am.RepositoryMirror.mirror = orig_mirror
+        if init_logs:
+            # the tool keeps its log files in class-level tables for the life of the process: close them so that the
+            # next run (another base_path) starts like a fresh process
+            from apt_mirror.logs import LoggerFactory
+            import logging as _logging
+            for hd in list(getattr(LoggerFactory, "FILE_HANDLERS", {}).values()):
+                for lg in list(_logging.Logger.manager.loggerDict.values()):
+                    if isinstance(lg, _logging.Logger) and hd in lg.handlers:
+                        lg.removeHandler(hd)
+                try:
+                    hd.close()
+                except Exception:
+                    pass
+            getattr(LoggerFactory, "FILE_HANDLERS", {}).clear()
+            getattr(LoggerFactory, "FILES", {}).clear()
     res.results = results
     res.max_inflight = shared["max"]
     res.ups = ups
